@@ -373,6 +373,84 @@ async def reconnect_case(ctx, first_end: str, stream: bytes, writes: list[str]) 
     ctx.case(("reconnect", first_end, stream, tuple(writes)), nontrivial=True, sample=case)
 
 
+async def backpressure_case(ctx, n_writers: int, line_size: int, seed: int) -> None:
+    """Outgoing back-pressure on a real TCP connection: the peer does not read until hundreds of kB are backed up, several
+    tasks call write() concurrently, then the peer drains.  The bytes at the peer must be the lines in the order the
+    write() CALLS were made (every call is stamped before it is awaited)."""
+    import random
+
+    from aiomysensors.transport.tcp import TCPTransport
+
+    rng = random.Random(seed)
+    received = bytearray()
+    start_reading = asyncio.Event()
+    done = asyncio.Event()
+    case = {"engine": "tcp-backpressure", "writers": n_writers, "line_size": line_size, "seed": seed}
+
+    async def handler(reader, writer) -> None:
+        try:
+            await start_reading.wait()
+            while True:
+                data = await reader.read(rng.choice([1024, 65536, 300000]))
+                if not data:
+                    break
+                received.extend(data)
+                if rng.random() < 0.3:
+                    await asyncio.sleep(0)
+        except OSError:
+            pass
+        finally:
+            done.set()
+            writer.close()
+
+    server = await asyncio.start_server(handler, "127.0.0.1", 0)
+    transport = TCPTransport("127.0.0.1", server.sockets[0].getsockname()[1])
+    calls: list[str] = []
+    try:
+        await transport.connect()
+        sock = transport.writer.get_extra_info("socket") if getattr(transport, "writer", None) else None
+        if sock is not None:
+            sock.setsockopt(socket.SOL_SOCKET, socket.SO_SNDBUF, 8192)
+
+        async def writer_task(index: int) -> None:
+            for j in range(rng.randint(3, 8)):
+                line = f"{index};{j};" + "x" * rng.choice([10, line_size, line_size // 3]) + "\n"
+                calls.append(line)  # stamped at call time
+                await transport.write(line)
+                if rng.random() < 0.5:
+                    await asyncio.sleep(0)
+
+        tasks = [asyncio.ensure_future(writer_task(i)) for i in range(n_writers)]
+        for _ in range(rng.randint(5, 60)):
+            await asyncio.sleep(0)
+        late = [asyncio.ensure_future(writer_task(100 + i)) for i in range(n_writers)]
+        for _ in range(rng.randint(0, 30)):
+            await asyncio.sleep(0)
+        start_reading.set()
+        # more writers arrive exactly while the stream resumes
+        for i in range(10):
+            await asyncio.sleep(0)
+            tasks.append(asyncio.ensure_future(writer_task(200 + i)))
+        await asyncio.wait_for(asyncio.gather(*tasks, *late), 60)
+        await transport.disconnect()
+        await asyncio.wait_for(done.wait(), 30)
+    finally:
+        server.close()
+        await server.wait_closed()
+    ctx.case(("backpressure", n_writers, line_size, seed), sample=case)
+    ctx.clause("write-order-under-backpressure")
+    want = "".join(calls).encode()
+    if bytes(received) != want:
+        got_lines = bytes(received).decode("utf-8", "replace").split("\n")
+        want_lines = "".join(calls).split("\n")
+        first = next((i for i, (a, b) in enumerate(zip(got_lines, want_lines)) if a != b), min(len(got_lines), len(want_lines)))
+        key = "writes-reordered" if sorted(got_lines) == sorted(want_lines) else "written-bytes-differ"
+        ctx.violation(key, f"{n_writers}+ concurrent writers under back-pressure: line #{first} at the peer is "
+                           f"{got_lines[first][:30] if first < len(got_lines) else None!r}..., the write() call order has "
+                           f"{want_lines[first][:30] if first < len(want_lines) else None!r}... ({len(got_lines)} vs {len(want_lines)} lines)",
+                      case)
+
+
 async def serial_case(ctx, stream: bytes, chunk_sizes: list[int], writes: list[str]) -> None:
     """(c) pty-backed SerialTransport."""
     from aiomysensors.transport.serial import SerialTransport
@@ -417,13 +495,22 @@ async def serial_case(ctx, stream: bytes, chunk_sizes: list[int], writes: list[s
         judge_reads(ctx, case, stream, False, results)
         want = "".join(writes).encode("utf-8")
         received = bytearray()
+        immediate = len(stream) % 2 == 0 and sum(len(w) for w in writes) < 3000
         for line in writes:
             await transport.write(line)
+            if immediate:
+                continue  # no yield between the writes and the disconnect below: nothing accepted may be dropped
             await asyncio.sleep(0)
             try:
                 received.extend(os.read(master, 65536))
             except BlockingIOError:
                 pass
+        if immediate:
+            ctx.clause("write-then-immediate-disconnect")
+            try:
+                await asyncio.wait_for(transport.disconnect(), 10)
+            except Exception as exc:  # noqa: BLE001
+                ctx.violation("disconnect-raises", f"serial disconnect raised {type(exc).__name__}: {exc!s:.80}", case)
         for _ in range(200):
             if len(received) >= len(want):
                 break
@@ -540,6 +627,8 @@ def run_case(ctx, case: dict) -> None:
         arun(reader_case(ctx, bytes.fromhex(case["stream"]), tuple(case["cuts"]), case["eof"]))
     elif case.get("engine") == "tcp" and not str(case["stream"]).startswith("<"):
         arun(tcp_case(ctx, bytes.fromhex(case["stream"]), case["chunks"], case["writes"], case.get("fault")))
+    elif case.get("engine") == "tcp-backpressure":
+        arun(backpressure_case(ctx, case["writers"], case["line_size"], case["seed"]))
     elif case.get("engine") == "tcp-reconnect":
         arun(reconnect_case(ctx, case["first_end"], bytes.fromhex(case["stream"]), case["writes"]))
     elif case.get("engine") == "serial-pty" and not str(case["stream"]).startswith("<"):
@@ -591,6 +680,9 @@ def run(ctx) -> None:
             for i, first_end in enumerate(("eof", "reset", "open", "eof-midline", "reset", "eof-midline")):
                 if ctx.mine(i):
                     arun(reconnect_case(ctx, first_end, b"4;1;1;0;2;1\nsecond;2\n", ["w1\n", "w2 \xe5\n"]))
+            for i in range(ctx.pick(12, 300) // ctx.shard_count + 1):
+                arun(backpressure_case(ctx, rng.choice([2, 3, 5, 8]), rng.choice([2000, 20000, 70000]),
+                                       ctx.seed * 100000 + ctx.shard_index * 1000 + i))
         # pty
         try:
             a, b = os.openpty()
